@@ -291,6 +291,7 @@ def size_threshold(test):
 
 class Interp:
     arms = {}       # id(If node) -> [node, then-arm reached, else-arm reached, function]
+    strides = {}    # id(range(...) call with a step) -> [node, largest step, most blocks ever produced, function]
 
     MAX_DEPTH = 40
     current = None
